@@ -31,15 +31,15 @@ with contextlib.redirect_stdout(io.StringIO()):      # polyply prints a numba hi
     import polyply  # noqa: F401
 
 PROP = "C18"
-# known-finding signature -> deviation flag of Select.tla that models it
+# known-finding signature -> deviation flag of Select.tla that models it.  Only findings that are OPEN have an entry: an observation
+# can be classified as a known finding only through this table (and only while known_findings.d lists the signature as known).
 SIG_FLAG = {
-    "molblock-raw-index-range": "molRawRange",
-    "rw-restriction-last-wins": "rwLastWins",
     "start-index-ignores-molname": "startIdxIgnoresName",
-    "start-without-molecule-keyerror": "startNoMolKeyError",
-    "lig-index-ignores-molname": "ligIdxIgnoresName",
-    "split-untouched-residues-lose-build": "splitLosesBuild",
 }
+# Repaired in /repo (known_findings.jsonl F12, F22-F26): the flags stay in Select.tla as sensitivity runs TLC must refute, they are never
+# switched on for the tree, so a returning defect is rejected by the P-layer and no I-layer-with-deviation state can excuse it -> VIOLATION.
+REPAIRED_FLAGS = {"ligNoTemplate": "F12", "startNoMolKeyError": "F22", "molRawRange": "F23", "rwLastWins": "F24", "splitLosesBuild": "F25",
+                  "ligIdxIgnoresName": "F26"}
 FLAG_SIG = {v: k for k, v in SIG_FLAG.items()}
 ALL_FLAGS = ["closedRes", "closedMol", "resnameIgnored", "molNameIgnored", "splitDrop", "rwLastWins", "molRawRange",
              "startIdxIgnoresName", "startNoMolKeyError", "startNameIgnored", "ligIdxIgnoresName", "ligNoTemplate", "splitLosesBuild"]
@@ -849,6 +849,8 @@ def run(tier):
             raise c.MachineryError("sensitivity: deviation %s was not refuted by TLC (%s)" % (fl, dev.errors[:2]))
     ck.model_must_refute(devh, "HandBack", "deviation ligWrongMol: position handed to the host molecule")
     ck.extra["deviations_refuted"] = ALL_FLAGS + ["ligWrongMol"]
+    ck.extra["deviation_flags_on_for_the_tree"] = flags
+    ck.extra["repaired_findings_modelled_as_refuted_flags"] = REPAIRED_FLAGS
     cases = ex1.cases() + ex2.cases() + ex3.cases()
     if len(cases) < 1000:
         raise c.MachineryError("export produced only %d cases" % len(cases))
